@@ -238,7 +238,7 @@ def classify(lin):
     return '+'.join(kinds[:3]) or 'reads'
 
 
-def run_program(env, case):
+def run_program(env, case, inspect=None):
     """Run the scheduled program; returns (calls, init_state, sched)."""
     import diskcache
 
@@ -254,7 +254,7 @@ def run_program(env, case):
         caches = [base] + [diskcache.Cache(path, timeout=0) for _ in range(n - 1)]
         return caches, caches
 
-    calls, sched = run_scheduled(env, case['progs'], case['schedule'], open_clients, do_op, 'C05', warm=lambda c: c._sql)
+    calls, sched = run_scheduled(env, case['progs'], case['schedule'], open_clients, do_op, 'C05', warm=lambda c: c._sql, inspect=inspect)
     return calls, tuple(sorted(case['init'].items())), sched
 
 
